@@ -38,3 +38,51 @@ Example C08_cleanup_nonvacuous :
   join [LF] ex_lines0 <> join [LF] ex_lines3.
 Proof. exact spell_equiv_example. Qed.
 Print Assumptions C08_cleanup_nonvacuous.
+
+(* C08_literals_opaque (Python flavour). [segs] alternates code without quote characters with literals
+   Q body Q, Q one of DQ, SQ, DQ DQ DQ, SQ SQ SQ (double / single quote), whose body is a sequence of plain characters (not the quote character, not a
+   backslash, not LF) and backslash pairs (backslash + any character but LF; inside a triple-quoted literal not the
+   quote character); an empty DQ DQ / SQ SQ is not directly followed by a third quote of its kind. Then the scanner
+   returns exactly the placeholders and the literal texts: whatever a literal contains (keywords, *, =, #, commas,
+   semicolons, variable-like text, the other quote, TABs) stays out of the format expression. *)
+Theorem C08_literals_opaque : forall (segs : list seg), wf_segs segs ->
+  separate_string_literals LPy (render segs) = (placeholders 0 segs, literals segs).
+Proof. exact literals_opaque. Qed.
+Print Assumptions C08_literals_opaque.
+
+(* non-vacuity: select DQ where \DQ TAB #,; a1 SQ = * DQ, a1 TAB SQSQSQ from a \x order by SQSQSQ + DQDQ x
+   is well-formed and separates into three placeholders and the three literal texts, TAB inside the literal kept,
+   TAB outside replaced by a space *)
+Example C08_literals_nonvacuous :
+  wf_segs ex_segs /\
+  separate_string_literals LPy (render ex_segs) = (placeholders 0 ex_segs, literals ex_segs) /\
+  length (literals ex_segs) = 3%nat /\ In TAB (nth 0 (literals ex_segs) []) /\ ~ In TAB (placeholders 0 ex_segs).
+Proof.
+  split; [exact (proj1 literals_opaque_example)|]. split; [exact (literals_opaque ex_segs (proj1 literals_opaque_example))|].
+  split; [reflexivity|]. split; [vm_compute; tauto|]. vm_compute. intuition discriminate.
+Qed.
+Print Assumptions C08_literals_nonvacuous.
+
+(* C08_combine_verbatim - NOT PROVED; full statement kept here as the goal:
+     forall segs, wf_segs segs ->
+       (no literal and no code segment of segs contains the text ___RBQL_STRING_LITERAL) ->
+       combine_string_literals (placeholders 0 segs) (literals segs) = render (map tabfix_code segs)
+   (render with TAB -> space in the code segments). Missing: the combinatorics-on-words argument that the sequential
+   str.replace of placeholder k finds exactly the one occurrence of placeholder k (the marker ___RBQL_STRING_LITERAL
+   is unbordered and contains no quote character, decimal numerals are prefix-free before ___). It is validated by the
+   correspondence run (entry 502 against combine_string_literals on every generated query) and its instance on the
+   example is checked below. What IS proved is that the hypothesis cannot be dropped: *)
+Example C08_combine_needs_hypothesis :
+  wf_segs ex_segs_o1 /\
+  combine_string_literals (placeholders 0 ex_segs_o1) (literals ex_segs_o1) <> render ex_segs_o1.
+Proof.
+  split; [exact (proj1 combine_needs_hypothesis)|].
+  destruct combine_needs_hypothesis as [_ [E1 E2]]. rewrite E1, E2. vm_compute. discriminate.
+Qed.
+Print Assumptions C08_combine_needs_hypothesis.
+
+Example C08_combine_verbatim_instance :
+  combine_string_literals (placeholders 0 ex_segs) (literals ex_segs) =
+  render (map (fun s => match s with Code c => Code (map tabfix c) | l => l end) ex_segs).
+Proof. vm_compute. reflexivity. Qed.
+Print Assumptions C08_combine_verbatim_instance.
